@@ -113,8 +113,10 @@ let parse_sop (s : string) : sop =
       let z = BZ.of_string v in
       SShl (nat o, nat_of_int bits, BZ.sign z < 0, n_of_bz (BZ.abs z))
   | ["del"; o] -> SDel (nat o)
-  | [("shl16" | "shl16s" | "shl16v" | "shl32" | "shl32s" | "shlw"); o; _; m] when String.length m > 2 && String.sub m 0 2 = "M=" ->
-      (* wide text: ST::utf16_to_utf8 / utf32_to_utf8 into a temporary buffer, then append(utf8.data(), utf8.size()) *)
+  | [("shl16" | "shl16s" | "shl16v" | "shl32" | "shl32s" | "shlw" | "shld" | "shlf"); o; _; m] when String.length m > 2 && String.sub m 0 2 = "M=" ->
+      (* wide text: ST::utf16_to_utf8 / utf32_to_utf8 into a temporary buffer, then append(utf8.data(), utf8.size());
+         double / float: float_formatter renders with the C library's %g (an oracle: the expected text comes with the case),
+         then append(text, size) *)
       SAppend (nat o, bytes_of_hex (String.sub m 2 (String.length m - 2)))
   | _ -> failwith ("drv_mem: bad stream op " ^ s)
 
